@@ -4,7 +4,9 @@ mod c17;
 mod entries;
 mod fuzz;
 mod layout;
+mod master;
 mod proto;
+mod settings;
 mod template;
 mod valve;
 mod transport;
@@ -243,6 +245,19 @@ fn run(cmd: &str, args: &[String], seed: u64, rep: &mut Report) {
                 write_ndjson(p, &all_trace);
             }
         }
+        "settings" => {
+            let ctx = fuzz::Ctx {
+                v: valve::Ctx {
+                    layouts: layout::LayoutSet::load(arg(&args, "--layouts").unwrap()),
+                    templates: template::Templates::load(arg(&args, "--templates").unwrap()),
+                    drift: drift_ids(),
+                },
+                mutations: vec![],
+            };
+            settings::replay(&ctx, &read_ndjson(arg(&args, "--in").unwrap()), seed, &mut rep);
+        }
+        "settings-real" => settings::real_sockets(&mut rep),
+        "master" => master::replay(&read_ndjson(arg(&args, "--in").unwrap()), seed, arg_u64(&args, "--reps", 1) as usize, &mut rep),
         "replay" => {
             let f: Value = serde_json::from_str(&std::fs::read_to_string(arg(&args, "--in").unwrap()).unwrap()).unwrap();
             let r = if f.get("replay").is_some() { f["replay"].clone() } else { f.clone() };
